@@ -279,6 +279,50 @@ fn check_seq(c: &SeqCase, p: &mut Probe) -> Check {
             ensure!((ln[3 * k + b] - want).abs() <= tol, "psk8-llr-seq", "sequence of {} symbols, sigma {sigma:e}: LLR of bit {b} of symbol {k} (r = {y}) is {} but log P(b=0|r)/P(b=1|r) = {want}", noisy.len(), ln[3 * k + b]);
         }
     }
+    // one case in sixteen: two demodulators of different noise levels work at the same time on two
+    // threads (the workers of a simulation do, and two simulations may run at once): each returns,
+    // every time, bit for bit what it returns alone
+    if c.salt & 0x1e000 == 0x2000 && !noisy.is_empty() {
+        p.class("two-demodulators-at-the-same-time");
+        let sigma2 = if c.salt & 0x20000 == 0 { sigma * 0.5 } else { sigma * 3.0 };
+        let dem2 = Psk8Demodulator::from_noise_sigma(sigma2);
+        let alone2 = dem2.demodulate(&noisy);
+        let (bd1, bd2) = (BpskDemodulator::from_noise_sigma(sigma), BpskDemodulator::from_noise_sigma(sigma2));
+        let re: Vec<f64> = noisy.iter().map(|z| z.re).collect();
+        let (alone_b1, alone_b2) = (bd1.demodulate(&re), bd2.demodulate(&re));
+        let rounds = (20_000 / noisy.len()).clamp(4, 400);
+        let barrier = std::sync::Barrier::new(2);
+        let same = |a: &[f64], b: &[f64]| a.len() == b.len() && a.iter().zip(b).all(|(x, y)| x.to_bits() == y.to_bits());
+        let run = |d: &Psk8Demodulator, b: &BpskDemodulator, want: &[f64], want_b: &[f64]| -> Option<String> {
+            barrier.wait();
+            for round in 0..rounds {
+                match std::panic::catch_unwind(std::panic::AssertUnwindSafe(|| (d.demodulate(&noisy), b.demodulate(&re)))) {
+                    Ok((l, lb)) => {
+                        if !same(&l, want) {
+                            return Some(format!("8PSK LLRs in round {round} differ from those the same demodulator returns alone (first difference at LLR {:?})", l.iter().zip(want).position(|(x, y)| x.to_bits() != y.to_bits())));
+                        }
+                        if !same(&lb, want_b) {
+                            return Some(format!("BPSK LLRs in round {round} differ from those the same demodulator returns alone"));
+                        }
+                    }
+                    Err(_) => return Some(format!("panicked in round {round}")),
+                }
+            }
+            None
+        };
+        let (ra, rb) = std::thread::scope(|sc| {
+            let ha = sc.spawn(|| run(&dem, &bd1, &ln, &alone_b1));
+            let hb = sc.spawn(|| run(&dem2, &bd2, &alone2, &alone_b2));
+            (ha.join(), hb.join())
+        });
+        for (sg, r) in [(sigma, ra), (sigma2, rb)] {
+            match r {
+                Ok(None) => {}
+                Ok(Some(what)) => return Err(Fail::new("demodulators-interfere", format!("two demodulators (sigma {sigma:e} and {sigma2:e}) demodulating {} symbols at the same time on two threads: for the one with sigma {sg:e} the {what}", noisy.len()))),
+                Err(_) => return Err(Fail::new("panic", "a demodulating thread panicked".to_string())),
+            }
+        }
+    }
     // the same demodulator object on a second slice of another length
     if noisy.len() >= 2 {
         let part = &noisy[1..];
@@ -331,7 +375,7 @@ pub fn property() -> Property {
             }),
             Box::new(Sub {
                 name: "roundtrip",
-                rule: "bit sequences of 0..39 symbols (one in 25: 40..699 symbols, one in 300: more than 2^16 bits): every symbol equals the own mapping of its three bits in order (bit order within a symbol), hard decisions (LLR <= 0 -> 1) of the demodulated noiseless symbols return the sequence for any sigma, for 8PSK and BPSK; a bit count that is not a multiple of 3 makes the 8PSK modulator panic (documented) or, if it returns, loses no bit; modulators built by new() or Default::default(); the bit array is handed to the modulators in six memory layouts (owned, reversed view, strided views, offset sub-range); the whole sequence plus bounded pseudo-noise is demodulated in one call and every LLR compared with the own exact posterior log-ratio of its sample (8PSK: 64 eps (|r|/sigma^2 + 1), BPSK: 4 eps relative), and the same demodulator object (in a quarter of the cases a clone of the one built) on the tail of the slice returns bit-identical values; non-trivial = at least two symbols",
+                rule: "bit sequences of 0..39 symbols (one in 25: 40..699 symbols, one in 300: more than 2^16 bits): every symbol equals the own mapping of its three bits in order (bit order within a symbol), hard decisions (LLR <= 0 -> 1) of the demodulated noiseless symbols return the sequence for any sigma, for 8PSK and BPSK; a bit count that is not a multiple of 3 makes the 8PSK modulator panic (documented) or, if it returns, loses no bit; modulators built by new() or Default::default(); the bit array is handed to the modulators in six memory layouts (owned, reversed view, strided views, offset sub-range); the whole sequence plus bounded pseudo-noise is demodulated in one call and every LLR compared with the own exact posterior log-ratio of its sample (8PSK: 64 eps (|r|/sigma^2 + 1), BPSK: 4 eps relative), and the same demodulator object (in a quarter of the cases a clone of the one built) on the tail of the slice returns bit-identical values; one case in sixteen: a second pair of demodulators with another sigma demodulates the same samples at the same time on a second thread, 4..400 rounds, and every result of both must be bit-identical to what the object returns alone; non-trivial = at least two symbols",
                 cases: |t| t.pick(300_000, 10_000_000),
                 strategy: seq_strategy,
                 check: check_seq,
